@@ -362,7 +362,7 @@ def _empty_name(kind, b):
         rest = t.split(" ", 0)[0]
         tail = sp[3:]
         if tail and tail[0].startswith("<DIR>"):
-            return len(tail) == 1 and tail[0] == "<DIR>"
+            return len(tail) == 1  # nothing separated by a blank follows the <DIR…> token
         return len(tail) <= 1
     return len(sp) <= 8
 
